@@ -37,18 +37,18 @@ func runC20(c *core.Ctx) {
 	// ---- R1
 	for _, name := range []string{"Compose", "Pipe"} {
 		f := p.Func(p.Fpgo, name)
-		if f == nil || len(f.AnonFuncs) != 1 {
-			c.Unknown("R1", name, "-", "function or its closure not found")
+		if f == nil || core.ReturnedClosure(p, f) == nil {
+			c.Unknown("R1", name, "-", "function or the closure it returns not found")
 			continue
 		}
 		c.Analysed(core.FuncName(f))
-		ok, detail := c20compose(p, f, f.AnonFuncs[0], name == "Compose")
+		ok, detail := c20compose(p, f, core.ReturnedClosure(p, f), name == "Compose")
 		c.Check(ok, "R1", name, p.Pos(f.Pos()), detail, detail)
 	}
 	// ---- R2
 	reNum := regexp.MustCompile(`^(CurryParam|MakeVariadicParam|MakeVariadicReturn)([0-9]+)$`)
 	for _, f := range p.Funcs {
-		if f.Parent() != nil || f.Pkg != p.Fpgo || f.Signature.Recv() != nil || len(f.AnonFuncs) != 1 {
+		if f.Parent() != nil || f.Pkg != p.Fpgo || f.Signature.Recv() != nil || len(f.AnonFuncs) == 0 {
 			continue
 		}
 		n := f.Name()
@@ -58,7 +58,12 @@ func runC20(c *core.Ctx) {
 			continue
 		}
 		c.Analysed(core.FuncName(f))
-		ok, detail := c20adapter(p, f, f.AnonFuncs[0], reNum.FindStringSubmatch(n))
+		acl := core.ReturnedClosure(p, f)
+		if acl == nil {
+			c.Unknown("R2", n, p.Pos(f.Pos()), "the adapter does not return one closure")
+			continue
+		}
+		ok, detail := c20adapter(p, f, acl, reNum.FindStringSubmatch(n))
 		c.Check(ok, "R2", n, p.Pos(f.Pos()), detail, detail)
 	}
 	// ---- R3
